@@ -351,3 +351,4 @@ def run(ctx: Ctx) -> None:
     ctx.coverage["rule"] = ("model: every (basis, dim, channel, amplitude) and for eff_noise every matrix unit and ordered pair E_ij + w E_kl (w in {1, i}) of the user matrix, "
                             "each instantiated on the real code (distinct by case); random: one case per random NoiseModel (distinct by draw); non-trivial = the emulator produced operators")
     ctx.coverage["exhaustive"] = True
+    ctx.coverage["distinct_violation_keys"] = sorted(set(ctx.violation_keys))
